@@ -58,7 +58,16 @@ fn resolve11(raw: &RawOp, src: &Tree, dst: &Tree, ctx: &Ctx, same: bool) -> Op {
         choose(t, ctx, want, i, j)
     };
     let dest_table = [(10u8, AbsentChild), (3, File), (2, NonRootDir), (2, DeepAbsent), (1, BelowFile)];
-    match raw.kind % 10 {
+    match raw.kind % 11 {
+        // copies must be independent of their source: later writes to one side are part of the game
+        10 => {
+            let f = pick(src, &[(1, File)], raw.mode, raw.a, raw.b);
+            if src.is_file(&f) {
+                Op::Append(f, make_bytes(&raw.data))
+            } else {
+                Op::Exists(f)
+            }
+        }
         0 => Op::CreateDirAll(pick(src, &[(8, DeepAbsent), (3, AbsentChild), (2, NonRootDir), (2, BelowFile), (1, File)], raw.mode, raw.a, raw.b)),
         1 => {
             let p = pick(src, &[(7, NonEmptyDir), (3, EmptyDir), (3, AbsentChild), (1, DeepAbsent)], raw.mode, raw.a, raw.b);
@@ -74,7 +83,7 @@ fn resolve11(raw: &RawOp, src: &Tree, dst: &Tree, ctx: &Ctx, same: bool) -> Op {
             if s.is_empty() || d.is_empty() || src.is_dir(&s) {
                 return Op::Exists(s);
             }
-            if raw.kind % 10 <= 3 {
+            if raw.kind % 11 <= 3 {
                 Op::CopyFile(s, d)
             } else {
                 Op::MoveFile(s, d)
@@ -95,7 +104,7 @@ fn resolve11(raw: &RawOp, src: &Tree, dst: &Tree, ctx: &Ctx, same: bool) -> Op {
             if s.is_empty() {
                 return Op::CopyDir(s, d);
             }
-            if raw.kind % 10 <= 7 {
+            if raw.kind % 11 <= 7 {
                 Op::CopyDir(s, d)
             } else {
                 Op::MoveDir(s, d)
@@ -385,7 +394,7 @@ pub fn replay(v: &Value) -> CaseResult {
     test(&case, &mut st, false)
 }
 
-const RULE: &str = "source trees (depth<=3, fan-out<=5, empty directories, binary files up to 20 KiB) on filesystem A, destinations on B, (A,B) drawn from: same instance / two instances of one backend / two different backends-adapters (Mem, Phys, altroot, overlay incl. sub-path layers); ops create_dir_all, remove_dir_all, copy_file, move_file, copy_dir, move_dir in both directions with destinations that are free, occupied, or lack a (directory) parent; oracle = two tree models and full snapshots of BOTH filesystems after every op: copy = identical subtree at the destination + untouched source + returned entry count, move = same + no trace of the source, existing destination refused with both snapshots unchanged; non-trivial = a directory transfer whose source has >=2 levels, an empty directory and a file >= 8 KiB";
+const RULE: &str = "source trees (depth<=3, fan-out<=5, empty directories, binary files up to 20 KiB) on filesystem A, destinations on B, (A,B) drawn from: same instance / two instances of one backend / two different backends-adapters (Mem, Phys, altroot, overlay incl. sub-path layers); ops create_dir_all, remove_dir_all, copy_file, move_file, copy_dir, move_dir (plus appends, so that a copy aliasing its source shows) in both directions with destinations that are free, occupied, or lack a (directory) parent; oracle = two tree models and full snapshots of BOTH filesystems after every op: copy = identical subtree at the destination + untouched source + returned entry count, move = same + no trace of the source, existing destination refused with both snapshots unchanged; non-trivial = a directory transfer whose source has >=2 levels, an empty directory and a file >= 8 KiB";
 
 pub fn run(ctx: &RunCtx) -> i32 {
     let reg = crate::regress::run_for(&ctx.id, &replay);
